@@ -49,13 +49,13 @@ CHECKS = {
     "C12": ("Coq proof at R: closed form of the loop vs an independently written per-symbol relation; permutation invariance + bit-exact correspondence",
             "c12_per_symbol (orders = exactly the wanted ones), c12_one_order_per_quoted_target, c12_sells_first_shape, c12_order_independent for every iteration order of weights and holdings.",
             TB + R_AX, "3/C12"),
-    "C13": ("Coq proof over R by induction on the cost list + bit-exact model/code correspondence",
+    "C13": ("Coq proof over R by induction on the cost list + bit-exact model/code correspondence + the cost functions re-translated from the Rust source on every run and proved equal to the model for every Num F (tools/rs2v.py, Check/GenEquiv.v)",
             "Theorems c13_* (Props/C13.v): no-overspend for every cost list of any length/order with each percentage in [0,1), fee additivity, price direction, budget monotonicity; proved of the Gallina model at F := R. The same definitions at the IEEE instance are compared bit-for-bit with BrokerCost on generated inputs every run; the cost model is also read as the broker applies it (rebalancing sizes and fee figures of brokers built from a possibly re-used builder must use the configured cost list).",
             TB + R_AX + "IEEE rounding in the inequality is outside the theorem.", "3/C13"),
     "C14": ("Coq proof at R (exp/ln compounding, population variance, scale invariance) + bit-exact correspondence with observed libm table",
             "c14_period, c14_total, c14_total_no_flows, c14_best/_worst, c14_vol, c14_cagr, c14_sharpe, c14_scale, c14_vectors.",
             TB + R_AX + "ln/exp/powf are the mathematical functions in the theorems; the platform libm's values are observed per run (table), not modelled.", "3/C14"),
-    "C15": ("Coq proof at R AND at the IEEE binary64 instance (monotone rounding, via Flocq): scan loop invariant (prefix maximum, minimum since, best pair so far) + bit-exact correspondence",
+    "C15": ("Coq proof at R AND at the IEEE binary64 instance (monotone rounding, via Flocq): scan loop invariant (prefix maximum, minimum since, best pair so far) + bit-exact correspondence + maxdd re-translated from the Rust source on every run and proved equal to the model for every Num F (tools/rs2v.py, Check/GenEquivPerf.v)",
             "c15_scan, c15_bounds, c15_monotone, c15_calculate at R (value is the minimum over i <= j; reported dates realise it, start <= end). AT THE IEEE INSTANCE (Props/C15float.v): for every non-empty path of finite positive binary64 values the scan's answer IS the float expression v_end / v_start - 1.0 at the reported positions start <= end and is <= v_j / v_i - 1.0 (both roundings, overflow to +inf included) for every i <= j, lies in [-1, 0], and is +0.0 on a path that never falls (c15f_scan, c15f_bounds, c15f_monotone) - no real-number idealisation of the scan is left; the compounding of the index from the returns (one multiplication per period) is the part still stated over R.",
             TB + R_AX + "Props/C15float.v additionally depends on the specification axioms the standard library declares for primitive floats (FloatAxioms.div_spec, sub_spec, leb_spec, ltb_spec, eqb_spec, opp_spec, abs_spec, Prim2SF_valid, SF2Prim_Prim2SF, Prim2SF_SF2Prim), listed by name in the evidence.", "3/C15, 8.2"),
     "C16": ("Coq proof: composition model (strategy + broker + eager client + Uist server + exchange): run() performs exactly N updates by the server clock lemma; ncf ledger and 'no value from trading' invariant at R + step-wise correspondence and direct reading of whole run() calls",
